@@ -32,6 +32,8 @@
            partial free explains is reported as NOTE stale-split-leak); recovered stats = accounting of abs, fast count =
            exact count, validate() of the recovered instance passes.  CORR[snap]: lower_recover of the machine's lower
            memory = the recovered buffer
+     [C18] every access of the compiled code (S line) names a word with in-range indices (tree < ntab, slot < the slot
+           count of its class, entry < ntab * TREE_HUGE, bitfield < nbf, row < ROWS) and an aligned lane inside its row
      [C21] SOLO lines (freeze mode): within the harness budget, not ending in a wait-panic
    usage: ustep.exe ustep <transcript|-> [keys-file] *)
 open Model
@@ -457,6 +459,19 @@ let do_step tid line fields =
   match fields with
   | [ kind; what; a; b; off; width; found; nw; ok ] -> (
       bump loc_hist what;
+      (* C18: the word the compiled code accessed has in-range indices and an aligned lane *)
+      (let fr = n_of_int r.nframes in
+       let okb =
+         match what with
+         | "row" -> row_idx_okb r.g fr (n_of_dec a) (n_of_dec b) (n_of_dec off) (n_of_dec width)
+         | "ent" -> ent_idx_okb r.g fr (n_of_dec a) (n_of_dec off) (n_of_dec width) && b = "0"
+         | "tree" -> tree_idx_okb r.g fr (n_of_dec a) (n_of_dec off) (n_of_dec width) && b = "0"
+         | "slot" ->
+             let len = match List.assoc_opt (int_of_string a) (List.rev r.classes) with Some n -> Some (n_of_int n) | None -> None in
+             slot_idx_okb len (n_of_dec b) (n_of_dec off) (n_of_dec width)
+         | _ -> false
+       in
+       if not okb then oracle "[C18]" (Printf.sprintf "step %d: access outside the index / lane bounds of its buffer: %s" r.nsteps line));
       if tid < Array.length r.firststep && r.firststep.(tid) then begin
         r.firststep.(tid) <- false;
         (match r.cur.(tid) with
@@ -939,10 +954,10 @@ let suite file keys =
   | None -> ());
   let hist h prefix = String.concat " " (List.sort compare (Hashtbl.fold (fun k v acc -> Printf.sprintf "%s%s=%d" prefix k v :: acc) h [])) in
   Printf.printf
-    "SUMMARY suite=ustep evaluations=%d distinct=%d runs=%d maxsteps=%d failed_cas=%d pre=%d post=%d quiescent=%d snaps=%d stale_split_leaks=%d solos=%d solomax=%d panics=%d known_panics=%d corr=%d oracle=%d corr_runs=%d c01=%d c03=%d c04=%d c10=%d c13=%d c05=%d c15=%d c21=%d %s %s %s\n"
+    "SUMMARY suite=ustep evaluations=%d distinct=%d runs=%d maxsteps=%d failed_cas=%d pre=%d post=%d quiescent=%d snaps=%d stale_split_leaks=%d solos=%d solomax=%d panics=%d known_panics=%d corr=%d oracle=%d corr_runs=%d c01=%d c03=%d c04=%d c10=%d c13=%d c05=%d c15=%d c18=%d c21=%d %s %s %s\n"
     !evals (Hashtbl.length distinct) !runs !maxsteps !failed_cas !pre_calls !post_calls !quiescent !snaps (get tag_counts "NOTEstale-split-leak") !solos !solomax !panics !known_panics
     (get kind_counts "CORR") (get kind_counts "ORACLE") !corr_runs (get tag_counts "ORACLE[C01]") (get tag_counts "ORACLE[C03]")
-    (get tag_counts "ORACLE[C04]") (get tag_counts "ORACLE[C10]") (get tag_counts "ORACLE[C13]") (get tag_counts "ORACLE[C05]") (get tag_counts "ORACLE[C15]")
+    (get tag_counts "ORACLE[C04]") (get tag_counts "ORACLE[C10]") (get tag_counts "ORACLE[C13]") (get tag_counts "ORACLE[C05]") (get tag_counts "ORACLE[C15]") (get tag_counts "ORACLE[C18]")
     (get tag_counts "ORACLE[C21]") (hist loc_hist "acc:") (hist mode_hist "mode:") (hist scn_hist "scn:")
 
 let () =
